@@ -66,6 +66,12 @@ def _make_stub(ptype: str, idx: int):
         def __repr__(self) -> str:
             return f"<stub {ptype}:{name}>"
 
+        if idx == 1:
+            # a plug-in object that happens to be falsy (e.g. a registry-like plug-in with __len__ == 0) is a plug-in
+            # like any other
+            def __len__(self) -> int:
+                return 0
+
     return Stub()
 
 
